@@ -645,7 +645,7 @@ func checkInitGenesisCallers(p *Prog, r *Report, clause, mod string) {
 	n := 0
 	for _, c := range callers {
 		n++
-		ok := pkgPathOf(c) == Rel(mod) && c.Name() == "InitGenesis" && c.Signature.Recv() != nil
+		ok := pkgPathOf(c) == Rel(mod) && c.Name() == "InitGenesis" && (c.Signature.Recv() != nil || p.delegateOf(c) == ig)
 		key := kp("WMC", mod+".InitGenesis<-"+FuncName(c))
 		switch {
 		case ok:
